@@ -218,8 +218,12 @@ def prefixBox (f : Nat) (ty : String) (bs : Bytes) (ps : PSpec) : Res :=
     if ¬ ps.valid tr then .rejected
     else finishBox ty bs ps (Layout.fuelFor ps.pre (bs.drop 8).length) tr (bs.drop 8) (rtKids f rest)
 
-def leafRes : RT → Res
-  | .unmodelled => .unmodelled
+/-- what `DecodeUnknown[SR]` + `Encode` give: the payload verbatim behind an 8-byte header -/
+def unknownEnc (hl : Nat) (bs : Bytes) : Bytes :=
+  beBytes 4 (8 + (bs.drop hl).length) ++ (bs.drop 4).take 4 ++ bs.drop hl
+
+def leafRes (ty : String) (hl : Nat) (bs : Bytes) : RT → Res
+  | .unmodelled => if Generated.decoderKeys.contains ty then .unmodelled else .ok (unknownEnc hl bs) []
   | .rejected => .rejected
   | .encFails => .encFails
   | .ok _ enc dc => .ok enc dc
@@ -232,9 +236,9 @@ theorem rtBox_succ (f : Nat) (bs : Bytes) :
         if size ≠ bs.length then .rejected
         else match pspecOf ty with
           | some ps => if hl ≠ 8 then .rejected else prefixBox f ty bs ps
-          | none => leafRes (roundTrip bs) := by
+          | none => leafRes ty hl bs (roundTrip bs) := by
   rw [rtBox]
-  unfold prefixBox finishBox leafRes countBad
+  unfold prefixBox finishBox leafRes countBad unknownEnc
   rfl
 
 /-! ### fuel monotonicity -/
@@ -542,17 +546,50 @@ theorem prefixBox_ok (f : Nat) (ty : String) (bs : Bytes) (ps : PSpec) (enc : By
       obtain ⟨rfl, _⟩ := e2
       exact ⟨hdrop, hag⟩
 
-theorem leafRes_ok (r : RT) (enc : Bytes) (dc : List Nat) (h : leafRes r = .ok enc dc) :
-    ∃ sz, r = .ok sz enc dc := by
-  cases r <;> simp [leafRes] at h
-  rename_i sz e d
-  exact ⟨sz, by rw [h.1, h.2]⟩
+theorem leafRes_ok (ty : String) (hl : Nat) (bs : Bytes) (r : RT) (enc : Bytes) (dc : List Nat)
+    (h : leafRes ty hl bs r = .ok enc dc) :
+    (∃ sz, r = .ok sz enc dc) ∨ (r = .unmodelled ∧ enc = unknownEnc hl bs ∧ dc = []) := by
+  cases r with
+  | unmodelled =>
+    simp only [leafRes] at h
+    cases hk : Generated.decoderKeys.contains ty with
+    | true => rw [hk] at h; simp at h
+    | false =>
+      rw [hk] at h
+      simp only [Bool.false_eq_true, if_false, Res.ok.injEq] at h
+      exact Or.inr ⟨rfl, h.1.symm, h.2.symm⟩
+  | rejected => simp [leafRes] at h
+  | encFails => simp [leafRes] at h
+  | ok sz e d =>
+    simp only [leafRes, Res.ok.injEq] at h
+    exact Or.inl ⟨sz, by rw [h.1, h.2]⟩
+
+/-- an unknown box kept verbatim: shape and length -/
+theorem unknownEnc_length (hl : Nat) (bs : Bytes) (h8 : 8 ≤ bs.length) :
+    (unknownEnc hl bs).length = 8 + (bs.length - hl) := by
+  have ht4 : ((bs.drop 4).take 4).length = 4 := by simp; omega
+  obtain ⟨e1, _⟩ := hdr_facts (8 + (bs.drop hl).length) ((bs.drop 4).take 4) (bs.drop hl) ht4
+  unfold unknownEnc
+  rw [e1, List.length_drop]
+
+/-- with an 8-byte header the payload of an unknown box stays where it was -/
+theorem unknownEnc_get (bs : Bytes) (hl : Nat) (h8 : 8 ≤ bs.length) (hl8 : hl = 8) (enc : Bytes)
+    (he : enc = unknownEnc hl bs) (i : Nat) (hi : 8 ≤ i) : enc[i]? = bs[i]? := by
+  subst hl8
+  have ht4 : ((bs.drop 4).take 4).length = 4 := by simp; omega
+  have hhl : (beBytes 4 (8 + (bs.drop 8).length) ++ (bs.drop 4).take 4).length = 8 := by
+    simp [beBytes_length, ht4]
+  rw [he]
+  unfold unknownEnc
+  rw [List.getElem?_append_right (by rw [hhl]; exact hi), hhl, List.getElem?_drop]
+  congr 1; omega
 
 /-- the cases of a successful `rtBox` -/
 theorem rtBox_ok_cases (f : Nat) (bs : Bytes) (enc : Bytes) (dc : List Nat) (h : rtBox f bs = .ok enc dc) :
     ∃ f' ty hl, f = f' + 1 ∧ parseHeader bs = some (ty, hl, bs.length) ∧
       ((∃ ps, pspecOf ty = some ps ∧ hl = 8 ∧ prefixBox f' ty bs ps = .ok enc dc) ∨
-       (pspecOf ty = none ∧ ∃ sz, roundTrip bs = .ok sz enc dc)) := by
+       (pspecOf ty = none ∧ ∃ sz, roundTrip bs = .ok sz enc dc) ∨
+       (pspecOf ty = none ∧ enc = unknownEnc hl bs ∧ dc = [])) := by
   cases f with
   | zero => simp [rtBox] at h
   | succ f =>
@@ -577,7 +614,9 @@ theorem rtBox_ok_cases (f : Nat) (bs : Bytes) (enc : Bytes) (dc : List Nat) (h :
         exact Or.inl ⟨ps, rfl, Decidable.not_not.mp c3, h⟩
       | none =>
         simp only [hps] at h
-        exact Or.inr ⟨rfl, leafRes_ok _ _ _ h⟩
+        rcases leafRes_ok _ _ _ _ _ _ h with hok | ⟨_, he, hd⟩
+        · exact Or.inr (Or.inl ⟨rfl, hok⟩)
+        · exact Or.inr (Or.inr ⟨rfl, he, hd⟩)
 
 theorem parseHeader_cases (bs : Bytes) (ty : String) (hl sz : Nat) (h : parseHeader bs = some (ty, hl, sz)) :
     (hl = 8 ∧ beVal (bs.take 4) ≠ 1 ∧ 8 ≤ bs.length ∧ sz = beVal (bs.take 4)) ∨
@@ -617,7 +656,7 @@ theorem container_length (f : Nat) (bs : Bytes) (enc : Bytes) (dc : List Nat) (t
   rw [hh] at hph
   simp only [Option.some.injEq, Prod.mk.injEq] at hph
   obtain ⟨rfl, rfl, rfl⟩ := hph
-  rcases hcase with ⟨ps, _, _, hp⟩ | ⟨hn, _⟩
+  rcases hcase with ⟨ps, _, _, hp⟩ | ⟨hn, _⟩ | ⟨hn, _⟩
   · have h8 : 8 ≤ bs.length := by
       rcases parseHeader_cases _ _ _ _ hh with ⟨_, _, h, _⟩ | ⟨_, _, h⟩ <;> omega
     obtain ⟨body, henc, hlen⟩ := prefixBox_length f' ty bs ps enc dc h8 hp
@@ -625,6 +664,8 @@ theorem container_length (f : Nat) (bs : Bytes) (enc : Bytes) (dc : List Nat) (t
     obtain ⟨e1, _⟩ := hdr_facts (8 + body.length) ((bs.drop 4).take 4) body ht4
     rw [henc, e1]
     omega
+  · obtain ⟨ps, hps⟩ := pspecOf_of_container ty hc
+    rw [hps] at hn; cases hn
   · obtain ⟨ps, hps⟩ := pspecOf_of_container ty hc
     rw [hps] at hn; cases hn
 
@@ -666,13 +707,16 @@ theorem rtBox_shape (f : Nat) (bs : Bytes) (hb : IsBytes bs) (enc : Bytes) (dc :
     ∃ ty hl body, parseHeader bs = some (ty, hl, bs.length) ∧
       enc = beBytes 4 (8 + body.length) ++ (bs.drop 4).take 4 ++ body ∧ body.length + hl ≤ bs.length := by
   obtain ⟨f', ty, hl, rfl, hph, hcase⟩ := rtBox_ok_cases f bs enc dc h
-  rcases hcase with ⟨ps, _, rfl, hp⟩ | ⟨_, sz, hrt⟩
+  rcases hcase with ⟨ps, _, rfl, hp⟩ | ⟨_, sz, hrt⟩ | ⟨_, he, _⟩
   · have h8 : 8 ≤ bs.length := by
       rcases parseHeader_cases _ _ _ _ hph with ⟨_, _, h, _⟩ | ⟨_, _, h⟩ <;> omega
     obtain ⟨body, henc, hlen⟩ := prefixBox_length f' ty bs ps enc dc h8 hp
     exact ⟨ty, 8, body, hph, henc, by omega⟩
   · obtain ⟨out, he, hl'⟩ := roundTrip_shape bs hb sz enc dc ty hl _ hph hrt
     exact ⟨ty, hl, out, hph, he, hl'⟩
+  · have hhl : hl ≤ bs.length := by
+      rcases parseHeader_cases _ _ _ _ hph with ⟨a, _, b, _⟩ | ⟨a, _, b⟩ <;> omega
+    exact ⟨ty, hl, bs.drop hl, hph, he, by rw [List.length_drop]; omega⟩
 
 theorem header_field (f : Nat) (bs : Bytes) (hb : IsBytes bs) (enc : Bytes) (dc : List Nat)
     (hsz : bs.length < 2 ^ 32) (h : rtBox f bs = .ok enc dc) :
@@ -783,12 +827,12 @@ theorem lossless_gen : ∀ f : Nat,
       obtain ⟨f', ty, hl, hf, hph, hcase⟩ := rtBox_ok_cases _ bs enc dc h
       have hf' : f = f' := by omega
       subst hf'
-      obtain ⟨h8, _, _, _, _⟩ := parseHeader_8 bs h1 ty hl _ hph
+      obtain ⟨h8, hl8, _, _, _⟩ := parseHeader_8 bs h1 ty hl _ hph
       by_cases hi8 : i < 8
       · have ht : (bs.take 8).length = 8 := by simp; omega
         rw [hbody, List.getElem?_append_left (by omega), List.getElem?_take, if_pos hi8]
       · obtain ⟨hty, hmk⟩ := moovFree_succ f bs ty hl _ hph hm
-        rcases hcase with ⟨ps, hps, _, hp⟩ | ⟨_, sz, hrt⟩
+        rcases hcase with ⟨ps, hps, _, hp⟩ | ⟨_, sz, hrt⟩ | ⟨_, he, _⟩
         · obtain ⟨tr, rest, kids, pb, pdc, hd, hk, henc, hdc, hplen, hbytes⟩ := prefixBox_ok f ty bs ps enc dc hp
           obtain ⟨hdrop, hag⟩ := hbytes hb
           rw [arrange_of_ne ty kids hty] at henc hdc
@@ -815,6 +859,7 @@ theorem lossless_gen : ∀ f : Nat,
           congr 1; omega
         · obtain ⟨_, _, _, _, hag, _⟩ := roundTrip_spec bs hb sz enc dc h1 hsz hrt
           exact hag i (by omega) hi hn
+        · exact unknownEnc_get bs hl h8 hl8 enc he i (by omega)
     · intro bs ks hb hsz hm h
       rcases rtKids_ok_cases f bs ks h with ⟨rfl, rfl⟩ | ⟨ty, hl, size, ks', hph, hle, hne, hk, hr⟩
       · intro i hi; simp [encKids] at hi
@@ -842,7 +887,7 @@ theorem lossless (f : Nat) (bs : Bytes) (hb : IsBytes bs) (enc : Bytes) (dc : Li
     ∀ i, 8 ≤ i → i < enc.length → i ∉ dc → enc[i]? = bs[i]? := by
   intro i h8i hi hn
   obtain ⟨f', ty, hl, hf, hph, hcase⟩ := rtBox_ok_cases _ bs enc dc h
-  rcases hcase with ⟨ps, _, _, hp⟩ | ⟨_, sz, hrt⟩
+  rcases hcase with ⟨ps, _, _, hp⟩ | ⟨_, sz, hrt⟩ | ⟨_, he, _⟩
   · have h8l : 8 ≤ bs.length := by
       rcases parseHeader_cases _ _ _ _ hph with ⟨_, _, h, _⟩ | ⟨_, _, h⟩ <;> omega
     subst hf
@@ -853,5 +898,7 @@ theorem lossless (f : Nat) (bs : Bytes) (hb : IsBytes bs) (enc : Bytes) (dc : Li
     exact (lossless_gen (f' + 1)).1 bs enc dc hb hsz hm h hlen i hi hn
   · obtain ⟨_, _, _, _, hag, _⟩ := roundTrip_spec bs hb sz enc dc h8 hsz hrt
     exact hag i h8i hi hn
+  · obtain ⟨h8l, hl8, _, _, _⟩ := parseHeader_8 bs h8 ty hl _ hph
+    exact unknownEnc_get bs hl h8l hl8 enc he i h8i
 
 end Mp4ff.TreeRT
